@@ -20,6 +20,9 @@ import traceback  # noqa: E402
 
 
 def main(argv: list[str]) -> int:
+    import time
+
+    t_start = time.time()
     ap = argparse.ArgumentParser()
     ap.add_argument("pid")
     ap.add_argument("--tier", default=os.environ.get("VERIF_TIER", "quick"), choices=["quick", "thorough"])
@@ -45,6 +48,7 @@ def main(argv: list[str]) -> int:
             return 2
         eng = Engine(args.repo)
         chk = Check(pid, args.tier, seed)
+        chk.t0 = t_start
         mod.run(chk, eng)
         chk.files = eng.files_consulted()
         if args.tier == "thorough":
